@@ -374,7 +374,19 @@ def main(tier, seed):
                 elif h_[:1] == ["VERIF-CINST"]:
                     cinst.setdefault(int(h_[1]), int(h_[2]))
             for cid, own_ in cown.items():
-                if cid not in cinst or cls == "duplicate_part":      # (the model has no word for a part read twice)
+                if cid not in cinst:
+                    continue
+                if cls == "duplicate_part":
+                    # parts under the numbers of their names, in the order they were read: complex_sev_named
+                    nums_ = {}
+                    reqn = "XN %d %s" % (own_, " ".join("%d=%d:%s" % (nums_.setdefault(_nm, len(nums_) + 1), sv, ",".join(al)) for (_nm, sv, al) in cparts.get(cid, [])))
+                    mxn = run_model([reqn])[0].split()
+                    class_hist["complex_named_compared"] = class_hist.get("complex_named_compared", 0) + 1
+                    if len(mxn) < 2 or int(mxn[1]) != cinst[cid]:
+                        disagreements += 1
+                        res.violation("model complex_sev_named and STEPcomplex::STEPread disagree on #%d (%s): parts %s own %d, reader %d, model %s" % (
+                                      cid, desc, cparts.get(cid), own_, cinst[cid], mxn[1:2]),
+                                      {"theorem_or_correspondence": "correspondence C03: coq/FileSev.v complex_sev_named vs STEPcomplex::STEPread"}, found_input=False)
                     continue
                 req = "X %d %s" % (own_, " ".join("%d:%s" % (sv, ",".join(al)) for (_nm, sv, al) in cparts.get(cid, [])))
                 mx = run_model([req])[0].split()
